@@ -98,7 +98,7 @@ def gen_inventories(rng):
     """Native-format inventories with adversarial names."""
     names = ["a", "b", "a.b", "a*", "*", "a\\", "mod.func", "x[0]", "A", "ab", "a b", "é", "a.b.c", "\\*"]
     doms = ["py", "std", "c", "p*"]
-    types = ["function", "label", "module", "t.x", "*"]
+    types = ["function", "label", "module", "t.x", "*", "rst:label", "t:x", "a:b:c"]  # Sphinx keys are 'domain:type', split at the first colon only
     invs = {}
     for key in rng.sample(["k", "key", "k2", "*k", "proj"], rng.randint(1, 3)):
         objects = {}
